@@ -51,6 +51,12 @@ const int64_t kCbIntervals[] = {1, 2, 3, 10, 100, 1000, 65536, 10000000};   // i
 const int64_t kCbHuge[] = {((int64_t)1 << 32) + 1, ((int64_t)1 << 32) + 3, (int64_t)1 << 32, ((int64_t)1 << 32) - 1, ((int64_t)1 << 31) + 2,
                            ((int64_t)1 << 33) + 5, 3 * ((int64_t)1 << 32) + 2, ((int64_t)1 << 40) + 7};
 
+// "parked" timers: intervals of 2^62 ms and more, up to 2^63-1 = std::chrono::milliseconds::max().  The loop computes
+// expired = now + interval in uint64 (no wrap for any int64 interval while now < 2^63) and never reaches such a deadline.
+const int64_t kParkedMin = (int64_t)1 << 62;
+const int64_t kParkedToSignedMax = ((int64_t)1 << 62) + 1;   // special value: interval = 2^63-1-now, i.e. deadline exactly 2^63-1
+const uint64_t kFarAway = 1ull << 45;                        // deadlines further away than this are never advanced to
+
 // integer argument: the value itself when it is inside [lo,hi] (friendly to hand-written replays), otherwise reduced
 int64_t argIn(const Op &op, size_t i, int64_t lo, int64_t hi) {
   int64_t v = op.arg(i, lo);
@@ -67,7 +73,8 @@ size_t idxIn(int64_t v, size_t n) {
 bool traceOn() { static const bool on = getenv("VERIF_C02_TRACE") != nullptr; return on; }
 #define C02_TRACE(...) do { if (traceOn()) { fprintf(stderr, "[c02] " __VA_ARGS__); fputc('\n', stderr); } } while (0)
 
-struct Runaway {};   // thrown out of a timer callback when, after a recorded failure, the loop keeps invoking callbacks without end
+struct Runaway {};
+struct Ctx;   // thrown out of a timer callback when, after a recorded failure, the loop keeps invoking callbacks without end
 
 struct T {
   int id = 0;
@@ -118,11 +125,20 @@ struct Ctx {
        c_cleanup_cb = false, c_stale_old_life = false, c_stale_same_life = false, c_stale_cb = false, c_new_life_fired = false,
        c_cleanup_then_followup_cb = false, c_dawdle = false, c_enable_after_dawdle = false, c_due_within_pass = false, c_work = false,
        c_iv_ge_2p32 = false, c_iv_2p31_2p32 = false, c_huge_fired = false,
+       c_parked = false, c_removed_next_to_parked = false,
        c_sequence = false, c_oneshot_self_en_dis = false, c_persist_self_en_dis = false;
 
   Ctx(const Scenario &s, CaseInfo &i) : scn(s), info(i) {}
 
   uint64_t now() const { return clk->now; }
+  // interval argument: 1 .. 2^41 (reduced), or a parked value 2^62 .. 2^63-1 taken literally
+  uint64_t ivArg(const Op &op, size_t i) const {
+    int64_t v = op.arg(i, 1);
+    if (v == kParkedToSignedMax) return (uint64_t)INT64_MAX - now();
+    if (v >= kParkedMin) return (uint64_t)v;
+    return (uint64_t)argIn(op, i, 1, kMaxInterval);
+  }
+  bool farAway(const T &x) const { return x.deadline > now() && x.deadline - now() > kFarAway; }
   void fail(const std::string &m) { if (err.empty()) err = m; }
   static std::string u(uint64_t v) { return std::to_string(v); }
   std::string desc(const T &x) const {
@@ -169,6 +185,7 @@ struct Ctx {
     return x;
   }
   void noteInterval(uint64_t d) {
+    if (d >= (uint64_t)kParkedMin) c_parked = true;
     if (d >= (1ull << 32)) c_iv_ge_2p32 = true;
     else if (d >= (1ull << 31)) c_iv_2p31_2p32 = true;
   }
@@ -185,19 +202,19 @@ struct Ctx {
   }
   void opDisable(T &x) {
     if (use_pool) { opDestroy(x); return; }
-    if (x.enabled) { noteKill(x); setWhy(x, "disabled"); if (cur_cb == x.id && x.self_enabled_in_cb) (x.oneshot ? c_oneshot_self_en_dis : c_persist_self_en_dis) = true; }
+    if (x.enabled) { noteParkedNeighbour(x); noteKill(x); setWhy(x, "disabled"); if (cur_cb == x.id && x.self_enabled_in_cb) (x.oneshot ? c_oneshot_self_en_dis : c_persist_self_en_dis) = true; }
     x.enabled = false;
     x.ev->disable();
   }
   void opInit(T &x, uint64_t interval, bool oneshot) {   // direct mode only; initialize() leaves the timer disabled
-    if (x.enabled) { c_reinit_en = true; noteKill(x); if (cur_cb == x.id && x.self_enabled_in_cb) (x.oneshot ? c_oneshot_self_en_dis : c_persist_self_en_dis) = true; }
+    if (x.enabled) { noteParkedNeighbour(x); c_reinit_en = true; noteKill(x); if (cur_cb == x.id && x.self_enabled_in_cb) (x.oneshot ? c_oneshot_self_en_dis : c_persist_self_en_dis) = true; }
     x.enabled = false; x.interval = interval; x.oneshot = oneshot; noteInterval(interval);
     setWhy(x, "re-initialised (which disables)");
     x.ev->initialize(std::chrono::milliseconds(interval), oneshot ? Event::Mode::kOneshot : Event::Mode::kPersist);
   }
   void opDestroy(T &x) {
     if (x.in_cb && !use_pool) return;   // asserted precondition of ~TimerEventImpl: never inside its own callback
-    if (x.enabled) noteKill(x);
+    if (x.enabled) { noteParkedNeighbour(x); noteKill(x); }
     x.alive = false; x.enabled = false;
     setWhy(x, use_pool ? "cancelled" : "destroyed");
     if (use_pool) {
@@ -229,6 +246,10 @@ struct Ctx {
     if (pool->cancel(y->tok))
       fail("TimerPool::cancel() with the stale token of " + desc(*y) + " (scheduled in life " + std::to_string(y->life) + " of the pool, now life " + std::to_string(life) +
            ") returned true, issued by " + who());
+  }
+  // an enabled timer leaves the loop while ANOTHER timer is armed with a deadline >= 2^63 (removal sentinel vs. parked deadline)
+  void noteParkedNeighbour(const T &x) {
+    for (auto &p : ts) if (p->alive && p->enabled && p.get() != &x && p->deadline >= (1ull << 63)) { c_removed_next_to_parked = true; return; }
   }
   void noteKill(const T &x) {
     if (!isDue(x)) return;
@@ -327,6 +348,7 @@ struct Ctx {
     unsigned sel = (unsigned)((us >> 4) & 63);
     unsigned extra = (unsigned)((us >> 10) & 1023);
     uint64_t niv = (extra & 8) ? x.interval : (uint64_t)(((extra >> 5) & 31) == 31 ? kCbHuge : kCbIntervals)[extra & 7];   // bit 3: same interval as the acting timer; bits 5-9 all set: huge table
+    if (((extra >> 5) & 31) == 29) niv = (extra & 1) ? (uint64_t)INT64_MAX : (uint64_t)INT64_MAX - (extra & 6);   // bits 5-9 = 11101: a parked timer (milliseconds::max() or a little less)
     bool nshot = (extra >> 4) & 1;
     unsigned pre = (unsigned)((us >> 20) & 15) % 9, post = (unsigned)((us >> 24) & 15) % 9;   // 0 = none, 1..8 = kDawdle index + 1
     if (pre) dawdle(x, pre - 1);
@@ -403,7 +425,7 @@ struct Ctx {
     int64_t xr = op.arg(1, 0); uint64_t x = xr < 0 ? (uint64_t)(-(xr + 1)) : (uint64_t)xr;
     bool has = false; uint64_t nd = 0;
     std::vector<T*> pers;
-    for (auto &p : ts) if (p->alive && p->enabled) { if (!has || p->deadline < nd) nd = p->deadline; has = true; if (!p->oneshot) pers.push_back(p.get()); }
+    for (auto &p : ts) if (p->alive && p->enabled && !farAway(*p)) { if (!has || p->deadline < nd) nd = p->deadline; has = true; if (!p->oneshot) pers.push_back(p.get()); }
     uint64_t n = now();
     switch (kind) {
       case ADV_0: return 0;
@@ -473,12 +495,12 @@ struct Ctx {
       switch (op.code) {
         case NEW: {
           int64_t s[kScript]; for (int i = 0; i < kScript; ++i) s[i] = op.arg(2 + i, 0);
-          opNew((uint64_t)argIn(op, 0, 1, kMaxInterval), argIn(op, 1, 0, 1) == 1, s);
+          opNew(ivArg(op, 0), argIn(op, 1, 0, 1) == 1, s);
           checkEnabled("new"); break; }
         case INIT:
-          if (use_pool) { opNew((uint64_t)argIn(op, 1, 1, kMaxInterval), argIn(op, 2, 0, 1) == 1, nullptr); break; }
+          if (use_pool) { opNew(ivArg(op, 1), argIn(op, 2, 0, 1) == 1, nullptr); break; }
           if (al.empty()) break;
-          opInit(*al[idxIn(op.arg(0), al.size())], (uint64_t)argIn(op, 1, 1, kMaxInterval), argIn(op, 2, 0, 1) == 1);
+          opInit(*al[idxIn(op.arg(0), al.size())], ivArg(op, 1), argIn(op, 2, 0, 1) == 1);
           checkEnabled("initialize"); break;
         case ENABLE: if (use_pool || al.empty()) break; opEnable(*al[idxIn(op.arg(0), al.size())]); checkEnabled("enable"); break;
         case DISABLE: if (al.empty()) break; opDisable(*al[idxIn(op.arg(0), al.size())]); checkEnabled("disable"); break;
@@ -499,7 +521,7 @@ struct Ctx {
     // (d) finale: let what is pending fire once more, then disable everything, then destroy everything; the loop
     //     keeps running with the clock moving on — any callback now is a callback after disable/destroy
     switch (finale++) {
-      case 0: { uint64_t maxd = n; for (auto &p : ts) if (p->alive && p->enabled) maxd = std::max(maxd, p->deadline); clk->now = maxd; return true; }
+      case 0: { uint64_t maxd = n; for (auto &p : ts) if (p->alive && p->enabled && !farAway(*p)) maxd = std::max(maxd, p->deadline); clk->now = maxd; return true; }
       case 1: for (T *p : aliveList()) opDisable(*p); checkEnabled("disable (finale)"); clk->now += (1ull << 34) + 1; return true;
       case 2: for (T *p : aliveList()) opDestroy(*p); if (use_pool) pool->cleanup(); clk->now += (1ull << 35) + 1; return true;
       case 3: case 4: clk->now += 1; return true;
@@ -569,6 +591,8 @@ struct Ctx {
     info.cls_if(c_sequence, "callback_performs_a_sequence_of_actions");
     info.cls_if(c_oneshot_self_en_dis, "one-shot_enabled_then_disabled_or_reinitialised_in_its_own_callback");
     info.cls_if(c_persist_self_en_dis, "persistent_re-enabled_then_disabled_or_reinitialised_in_its_own_callback");
+    info.cls_if(c_parked, "parked_timer_(interval>=2^62ms)");
+    info.cls_if(c_removed_next_to_parked, "timer_disabled_or_destroyed_while_another_is_armed_with_deadline>=2^63");
     info.cls_if(c_iv_ge_2p32, "interval>=2^32ms");
     info.cls_if(c_iv_2p31_2p32, "interval_in_[2^31,2^32)ms");
     info.cls_if(c_huge_fired, "timer_with_interval>=2^31ms_fired");
@@ -657,7 +681,10 @@ Scenario expand(int64_t seed, int size) {
   int npal = (int)rng(1, 3); int64_t pal[3];
   for (int i = 0; i < npal; ++i) pal[i] = fresh(mag);
   if (hugecase && rng(0, 1)) pal[rng(0, npal - 1)] = hugeIv();
-  auto iv = [&]() -> int64_t { if (hugecase && rng(0, 9) < 3) return hugeIv(); return rng(0, 9) < 7 ? pal[rng(0, npal - 1)] : fresh(mag); };
+  // a sixth of the cases: "parked" timers (milliseconds::max(), a little less, 2^63-1-now, 2^62), usually armed early
+  bool parkcase = rng(0, 5) == 0; int parked_made = 0;
+  auto iv = [&]() -> int64_t { if (parkcase && (parked_made == 0 || rng(0, 9) < 1)) { ++parked_made; return pick({{6, INT64_MAX}, {2, INT64_MAX - 1}, {1, INT64_MAX - rng(2, 1000)}, {2, kParkedToSignedMax}, {2, kParkedMin}, {1, kParkedMin + rng(2, 1000000)}}); }
+    if (hugecase && rng(0, 9) < 3) return hugeIv(); return rng(0, 9) < 7 ? pal[rng(0, npal - 1)] : fresh(mag); };
   bool seqcase = rng(0, 2) == 0;    // a third of the cases: callbacks that perform a sequence of 2-4 actions
   bool slowcase = rng(0, 2) == 0;   // a third of the cases: callbacks that take time (the clock moves on inside a loop pass)
   auto script = [&]() -> int64_t {
@@ -672,7 +699,9 @@ Scenario expand(int64_t seed, int size) {
     }
     if (act == A_NONE && !slow && !steps) return 0;
     int64_t extra = rng(0, 1023);
-    if (hugecase && rng(0, 9) < 3) extra |= 31 << 5; else if (((extra >> 5) & 31) == 31) extra &= ~(1 << 5);   // huge callback intervals only in huge cases
+    if (((extra >> 5) & 31) == 31 || ((extra >> 5) & 31) == 29) extra &= ~(1 << 9);   // the special interval patterns only on purpose:
+    if (hugecase && rng(0, 9) < 3) extra |= 31 << 5;                                     // huge callback intervals only in huge cases
+    else if (parkcase && rng(0, 9) < 1) extra = (extra & ~(31 << 5)) | (29 << 5);        // parked callback intervals only in park cases
     return act + 16 * rng(0, 63) + 1024 * extra + slow + steps;
   };
   bool quiet = rng(0, 5) == 0;   // a sixth of the cases: no scripts at all (pure outside-callback histories)
